@@ -388,6 +388,29 @@ func (g *histGen) run(nEvents int) {
 			if tip, ok := g.tipOf[ref]; ok {
 				g.b.Propagation(ref, tip, g.pickSigner(ref, r.Bool()))
 			}
+		case x < 94:
+			// recovery episode with a policy / attestation update INSIDE the window: violation,
+			// revocation, state change, fix (tree-same as the previous entry), then a push that
+			// depends on the state recorded inside the window
+			prevEnts := g.refEntries(ref)
+			if len(prevEnts) == 0 {
+				g.stepPush(ref, true, false, nil)
+				prevEnts = g.refEntries(ref)
+			}
+			same := ip(g.b.W.Log[prevEnts[len(prevEnts)-1]].Target.I)
+			tip := g.tipOf[ref]
+			bad := g.b.AddCommit(ip(tip), g.b.AddTree(g.newTree(g.filesOf(tip), false)), ip(kOutsider))
+			g.tipOf[ref] = bad
+			be := g.b.Push(ref, bad, ip(kOutsider))
+			g.b.Annotate([]int{be}, true, g.pickSigner(ref, true))
+			if r.Chance(70) {
+				g.pol = g.genPolicy(&g.pol)
+				g.b.AddPolicy(g.pol, r.Chance(50))
+			} else {
+				g.b.AddAtt(WAtt{})
+			}
+			g.stepPush(ref, true, false, same)
+			g.stepPush(ref, r.Chance(85), false, nil)
 		default:
 			g.stepPush(ref, false, r.Chance(20), nil)
 		}
